@@ -40,7 +40,7 @@ def finite_language(aut, lexeme, cap=40, maxlen=24):
 def gen_cases(tr, sd):
     rng = random.Random(6000 + sd)
     cases = [dict(schema=s, origin="hand") for s in jsgen.HAND]
-    n = 250 if tr == "quick" else 1500
+    n = 250 if tr == "quick" else 1000
     for _ in range(n):
         cases.append(dict(schema=jsgen.gen_case(rng), origin="seed%d" % sd))
     return cases
